@@ -36,6 +36,10 @@ def main(tier, seed):
                 # attribute, with members reached as unloaded references
                 c['variant'] = 'group_owner'
                 c['knobs']['fetch'] = 2
+            elif i % 4 == 1:
+                # program-chosen primary keys next to a unique key (Car.id / Car.plate): constructors refused for
+                # the primary key after the other keys were claimed
+                c['variant'] = 'car_explicit_pk'
             yield c
             i += 1
 
